@@ -287,4 +287,69 @@ theorem toJsonFields_strict : ∀ (fs : List (FieldHdr × PSchema)), wfAFields f
         simp [strictEntries, strictEntries_append, JOut.strict, toJson_strict s h.1.2, strictList_strs, strictList_strs_cons]
 end
 
+/-! ### names through their JSON spelling -/
+
+theorem isIdChar_ne_dot (c : UInt8) (h : isIdChar c = true) : c ≠ 46 := by
+  intro hc; subst hc; revert h; decide
+
+theorem isIdStart_ne_dot (c : UInt8) (h : isIdStart c = true) : c ≠ 46 := by
+  intro hc; subst hc; revert h; decide
+
+theorem splitDots_nodot : ∀ (s : Bytes), (∀ c ∈ s, c ≠ 46) → splitDots s = [s]
+  | [], _ => rfl
+  | c :: rest, h => by
+    have hc : (c == 46) = false := by simpa using h c (by simp)
+    simp only [splitDots, hc, Bool.false_eq_true, if_false, splitDots_nodot rest (fun x hx => h x (by simp [hx]))]
+
+theorem ident_nodot (s : Bytes) (h : isIdent s = true) : ∀ c ∈ s, c ≠ 46 := by
+  cases s with
+  | nil => simp [isIdent] at h
+  | cons c rest =>
+    simp only [isIdent, Bool.and_eq_true, List.all_eq_true] at h
+    intro x hx
+    rcases List.mem_cons.mp hx with rfl | hx
+    · exact isIdStart_ne_dot _ h.1
+    · exact isIdChar_ne_dot _ (h.2 x hx)
+
+theorem nameIndex_ident (s : Bytes) (h : isIdent s = true) : schemaNameIndex s = some 0 := by
+  unfold schemaNameIndex
+  simp [splitDots_nodot s (ident_nodot s h), h]
+
+/-- a name WITH a namespace is written as `"namespace"` + `"name"` and read back as itself, whatever
+the enclosing namespace at the place it is read -/
+theorem name_roundtrip_with_namespace (n : PName) (ns : Bytes) (hns : n.ns = some ns) (hok : n.ok = true)
+    (enclosing : Option Bytes) :
+    parseName [(b!"name", .str n.name), (b!"namespace", .str ns)] enclosing = some n := by
+  unfold PName.ok at hok
+  rw [hns] at hok
+  simp only [Bool.and_eq_true, Bool.not_eq_true', List.isEmpty_eq_false_iff] at hok
+  obtain ⟨hid, hne, hnsok⟩ := hok
+  have hobj1 : objStr [(b!"name", Json.str n.name), (b!"namespace", Json.str ns)] b!"name" = some n.name := by
+    simp [objStr, objGet]
+  have hobj2 : objStr [(b!"name", Json.str n.name), (b!"namespace", Json.str ns)] b!"namespace" = some ns := by
+    simp [objStr, objGet]
+  have hemp : ns.isEmpty = false := by cases ns <;> simp_all
+  unfold parseName PName.make PName.raw
+  simp only [hobj1, hobj2, Option.orElse, nameIndex_ident n.name hid, BEq.rfl, if_true, hemp, Bool.false_eq_true, if_false, hnsok]
+  have : ({ ns := some ns, name := n.name } : PName) = n := by cases n; simp_all
+  simp [this, PName.ok, hns, hid, hemp, hnsok]
+
+/-- a name WITHOUT a namespace is written as `"name"` alone; read back inside a type that has the
+namespace `e` it becomes `e.name` - another name (the finding `C10.null-namespace-inherits`) -/
+theorem null_namespace_inherits (n : PName) (hns : n.ns = none) (hok : n.ok = true) (e : Bytes)
+    (he : e ≠ []) (heok : isNamespace e = true) :
+    parseName [(b!"name", .str n.name)] (some e) = some { ns := some e, name := n.name } ∧
+    ({ ns := some e, name := n.name } : PName) ≠ n := by
+  unfold PName.ok at hok
+  rw [hns] at hok
+  simp only [Bool.and_true] at hok
+  have hobj1 : objStr [(b!"name", Json.str n.name)] b!"name" = some n.name := by simp [objStr, objGet]
+  have hobj2 : objStr [(b!"name", Json.str n.name)] b!"namespace" = none := by
+    simp only [objStr, objGet, List.find?_cons, List.find?_nil]; rfl
+  have hemp : e.isEmpty = false := by cases e <;> simp_all
+  refine ⟨?_, fun h => by rw [← h] at hns; cases hns⟩
+  unfold parseName PName.make PName.raw
+  simp only [hobj1, hobj2, Option.orElse, nameIndex_ident n.name hok, BEq.rfl, if_true, hemp, Bool.false_eq_true, if_false, heok]
+  simp [PName.ok, hok, hemp, heok]
+
 end Avro.C10
